@@ -365,7 +365,7 @@ impl Check for C13 {
         ]
     }
     fn explore(&self, cli: &Cli, st: &mut Stats) {
-        let len = cli.tier.pick(4usize, 6usize);
+        let len = cli.tier.pick(5usize, 7usize);
         let wms: Vec<Wm> = (0..=4).map(Wm::Bounded).chain([Wm::Monotonic]).collect();
         // exhaustive part, sharded by first timestamp x watermark config
         let mut jobs: Vec<(Wm, u64)> = Vec::new();
@@ -413,7 +413,7 @@ impl Check for C13 {
             len
         ));
         // random part
-        let per = cli.n(4_000, 150_000);
+        let per = cli.n(40_000, 1_500_000);
         shards(cli, nthreads, st, |_shard, rng, st| {
             for _ in 0..per {
                 if cli.expired() {
